@@ -487,7 +487,7 @@ def _text_arg_type(a: str) -> str:
     return "unknown"
 
 
-@rule("L1", "RUN-INTERFACE: every RUN the tool can emit names a library procedure and passes the declared number and coarse types of arguments", ["C14", "C13", "C04"], floor=40)
+@rule("L1", "RUN-INTERFACE: every RUN the tool can emit names a library procedure and passes the declared number and coarse types of arguments", ["C14", "C13", "C04", "C07"], floor=40, default_props=["C14", "C13", "C04"])
 def l1(ctx: Ctx):
     I = interp(ctx)
     L = b09lib(ctx)
@@ -769,6 +769,18 @@ def _match_slot(I: Interp, slot: Any, v: V, ops: List[Tuple[Tuple[int, ...], str
                 ok = False
         return None if ok and seen_plain else f"expected operand #{k + 1} (through ecb_str when numeric), found {_brief(v)}"
     if all(is_default(a, slot) for a in alts):
+        if kind == "lit" and len(slot[1]) > 1:
+            # a choice the source syntax makes: every documented value must be able to arrive here
+            seen_vals: Set[Any] = set()
+            for a in alts:
+                for l in alts_of(a.fields.get("_literal")):
+                    if isinstance(l, Const):
+                        seen_vals.add(l.value)
+                    elif isinstance(l, StrV) and l.lits is not None:
+                        seen_vals |= set(l.lits)
+            missing = {x for x in slot[1] if not any(x == y for y in seen_vals)}
+            if missing:
+                return f"only {sorted(map(str, seen_vals))} can arrive here; the statement's options select among {sorted(map(str, slot[1]))}: {sorted(map(str, missing))} is never passed on"
         return None
     return f"expected {_slot_text(slot)}, found {_brief(v)}"
 
@@ -925,10 +937,25 @@ def r1(ctx: Ctx):
             want = {"play.octo := 0", "play.octo := 1", "POKE {}, {}"}
             ok = set(texts) == want
             ctx.ob("poke_statement:forms", ok, "" if ok else f"POKE is emitted as {sorted(set(texts))}, documented forms are {sorted(want)}", file=rm[0].module, line=rm[1].lineno, props=["C04"])
-            src = unparse(rm[1])
-            m0 = re.search(r"== 65496:\s+return f?[\"'].*?play\.octo := 0", src, re.S)
-            m1 = re.search(r"== 65497:\s+return f?[\"'].*?play\.octo := 1", src, re.S)
-            ctx.ob("poke_statement:speed-addresses", bool(m0 and m1), "" if (m0 and m1) else "65496 -> play.octo := 0 and 65497 -> play.octo := 1 are not both present", file=rm[0].module, line=rm[1].lineno, props=["C04"])
+            # decided by interpreting basic09_text on concrete first operands (decimal and hex spellings of the two addresses, and their neighbours)
+            cases = [("BasicLiteral", 65496, "play.octo := 0"), ("BasicLiteral", 65497, "play.octo := 1"), ("HexLiteral", "FFD8", "play.octo := 0"), ("HexLiteral", "FFD9", "play.octo := 1"), ("BasicLiteral", 65495, None), ("BasicLiteral", 65498, None), ("HexLiteral", "FFD7", None), ("HexLiteral", "FFDA", None)]
+            bad = []
+            shape = True
+            for lc, lit, want_ in cases:
+                e1 = I.construct(lc, [Const(lit)], {}, rm[1].lineno, rm[0].name)
+                e2 = I.construct("BasicLiteral", [Const(7)], {}, rm[1].lineno, rm[0].name)
+                pk = I.construct(a.cls, [e1, e2], {}, rm[1].lineno, rm[0].name)
+                tv = I.call_function(rm[1], [pk, Const(0)], self_obj=pk, owner=rm[0].name)
+                got = set()
+                for alt in alts_of(tv):
+                    parts = _flatten(alt)
+                    if not all(isinstance(p_, str) for p_ in parts):
+                        shape = False
+                    got.add("".join(p_ if isinstance(p_, str) else "{}" for p_ in parts))
+                okc = got == {want_} if want_ is not None else (len(got) == 1 and next(iter(got)).startswith("POKE "))
+                if not okc:
+                    bad.append(f"POKE {'$' if lc == 'HexLiteral' else ''}{lit}, 7 -> {sorted(got)}")
+            ctx.idiom("poke_statement:speed-addresses", shape, not bad, "" if not bad else "65496 -> play.octo := 0 and 65497 -> play.octo := 1 (decimal or hex), any other address a POKE: " + "; ".join(bad), file=rm[0].module, line=rm[1].lineno, props=["C04"])
 
 
 def _match_template_slot(slot: Any, found: List[Any], ops) -> Optional[str]:
@@ -1067,7 +1094,7 @@ def e11(ctx: Ctx):
 # E12 COND-KIND (sibling agreement of the three IF builders)
 
 
-@rule("E12", "COND-KIND: every IF-family builder gives BASIC09 a boolean condition (a bare numeric condition becomes `<> 0`)", ["C01"], floor=3)
+@rule("E12", "COND-KIND: every IF-family builder gives BASIC09 a boolean condition (a bare numeric condition becomes `<> 0`)", ["C01", "C02"], floor=3)
 def e12(ctx: Ctx):
     I = interp(ctx)
     py = pyfacts(ctx)
